@@ -14,27 +14,30 @@ import warnings
 
 
 def classify_exception(exc):
-    """'repo' if the innermost frame that is not library code lies in the repository, else 'harness'."""
+    """'repo' if the innermost frame that is ours or the repository's lies in the repository, else 'harness'.
+    Chained exceptions are followed (a library error handler may fail while reporting a repository error)."""
     from . import env
 
-    tb = traceback.extract_tb(exc.__traceback__)
-    inner = None
-    for fr in tb:
-        if env.in_repo(fr.filename):
-            inner = "repo"
-        elif fr.filename.startswith(env.VERIF):
-            inner = "harness"
-    # the deciding frame: the last one that is ours or the repository's
-    last = None
-    for fr in tb:
-        if env.in_repo(fr.filename):
-            last = ("repo", fr)
-        elif fr.filename.startswith(env.VERIF):
-            last = ("harness", fr)
-    if last is None:
+    chain = []
+    e = exc
+    seen = set()
+    while e is not None and id(e) not in seen:
+        seen.add(id(e))
+        chain.append(e)
+        e = e.__cause__ or e.__context__
+    best = None
+    for e in chain:  # outermost first; the original error is last and wins if it reaches into the repository
+        last = None
+        for fr in traceback.extract_tb(e.__traceback__):
+            if env.in_repo(fr.filename):
+                last = ("repo", fr)
+            elif fr.filename.startswith(env.VERIF):
+                last = ("harness", fr)
+        if last is not None and (best is None or last[0] == "repo"):
+            best = last
+    if best is None:
         return "harness", None
-    # an exception raised in library code (numpy/openmdao) *called from* the repository counts as the repository's
-    return last[0], "%s:%d %s" % (last[1].filename, last[1].lineno, last[1].name)
+    return best[0], "%s:%d %s" % (best[1].filename, best[1].lineno, best[1].name)
 
 
 def run_one(mod, case):
